@@ -17,12 +17,11 @@ package stringlib
 // here for the paths that do not go through strings.Builder: the length of the
 // result is n*len(s) + (n-1)*len(sep) (so an empty s with a separator is not "").
 //@ func rep
-//@   prop C06 C19
+//@   prop C06 C19 C04
 //@   arith int
-//@   norte
-//@   requires goFuncPre(t, c)
+//@   requires goFuncPre(t, c) && t.Runtime != nil && c.GoFunction != nil && c.next != nil && len(c.args) == 3
 //@   modifies everything()
-//@   exits any
+//@   exits ContextTerminationError
 //@   allocs charged slack 0
 //@   loop 1: invariant true
 //@   assert_before_call StringValue inscope: ln == 1 ==> $s == ls
@@ -32,50 +31,47 @@ package stringlib
 // empty string; the slice taken is always within the string (bounds obligations
 // are generated for all int64 i, j).
 //@ func sub
-//@   prop C19
+//@   prop C19 C04
 //@   arith int
-//@   requires goFuncPre(t, c)
+//@   requires goFuncPre(t, c) && t.Runtime != nil && c.GoFunction != nil && c.next != nil && len(c.args) == 3
 //@   modifies everything()
-//@   exits any
+//@   exits ContextTerminationError
 //@   assert_before_call StringValue inscope: i == spec.max(1, ite(ii >= 0, ii, len(s) + 1 + ii)) && j <= len(s)
 //@   assert_before_call StringValue inscope: len($s) == ite(i <= len(s) && i <= j, j - i + 1, 0)
 
 // string.byte(s, i, j): pushes s[i..j] clipped to the string; never indexes
 // outside it.
 //@ func bytef
-//@   prop C19
+//@   prop C19 C04
 //@   arith int
-//@   requires goFuncPre(t, c)
+//@   requires goFuncPre(t, c) && t.Runtime != nil && c.GoFunction != nil && c.next != nil && len(c.args) == 3
 //@   modifies everything()
-//@   exits any
+//@   exits ContextTerminationError
 //@   loop 1: invariant 1 <= i && j <= len(s)
 
 //@ func reverse
-//@   prop C06
+//@   prop C06 C04
 //@   arith int
-//@   norte
-//@   requires goFuncPre(t, c)
+//@   requires goFuncPre(t, c) && t.Runtime != nil && c.GoFunction != nil && c.next != nil && len(c.args) == 1
 //@   modifies everything()
-//@   exits any
+//@   exits ContextTerminationError
 //@   allocs charged slack 0
-//@   loop 1: invariant true
+//@   loop 1: invariant 0 <= i && i <= len(s) && len(sb) == len(s) && l == len(s) - 1
 
 //@ func lower
-//@   prop C06
+//@   prop C06 C04
 //@   arith int
-//@   norte
-//@   requires goFuncPre(t, c)
+//@   requires goFuncPre(t, c) && t.Runtime != nil && c.GoFunction != nil && c.next != nil && len(c.args) == 1
 //@   modifies everything()
-//@   exits any
+//@   exits ContextTerminationError
 //@   allocs charged slack 0
 
 //@ func upper
-//@   prop C06
+//@   prop C06 C04
 //@   arith int
-//@   norte
-//@   requires goFuncPre(t, c)
+//@   requires goFuncPre(t, c) && t.Runtime != nil && c.GoFunction != nil && c.next != nil && len(c.args) == 1
 //@   modifies everything()
-//@   exits any
+//@   exits ContextTerminationError
 //@   allocs charged slack 0
 
 // ---------------------------------------------------------------------------
